@@ -47,7 +47,7 @@ class P_{uid}(Component):
   def construct(s, T, k=1, tag="x", lst=None):
     s.in_ = InPort(T)
     s.out = OutPort(T)
-    n = len(lst) if lst else 0
+    n = (len(lst) + lst[-1]) if lst else 0
     @update
     def up():
       s.out @= s.in_ + k + n
@@ -63,6 +63,14 @@ class Q_{uid}(Component):
       for i in range(depth - 1):
         s.r[i + 1] <<= s.r[i]
     s.out //= s.r[depth - 1]
+
+class R_{uid}(Component):
+  def construct(s, nbits, offset=1, mult=2):
+    s.in_ = InPort(mk_bits(nbits))
+    s.out = OutPort(mk_bits(nbits))
+    @update
+    def up():
+      s.out @= s.in_ * mult + offset
 
 class Top_{uid}(Component):
   def construct(s):
@@ -85,11 +93,24 @@ def gen_param_design(c, uid):
             # keyword arguments incl. falsy values next to the default configuration
             "P_%s(Bits8)", "P_%s(Bits8, k=0)", "P_%s(Bits8, k=1)", "P_%s(Bits8, tag='')", "P_%s(Bits8, k=0, tag='x')",
             "Q_%s(8, depth=2)", "Q_%s(8, depth=1)", "Q_%s(nbits=8)", "P_%s(Bits8)", "P_%s(Bits8)", "Q_%s(8)", "Q_%s(8)"]
+  # two defaults, supplied positionally / by keyword / skipped, over a small value set: any mix-up between
+  # "which default belongs to which argument" makes two of these collide on a name
+  candsR = ["R_%s(8)", "R_%s(8, mult=3)", "R_%s(8, 2, 3)", "R_%s(8, 2)", "R_%s(8, offset=2)", "R_%s(8, mult=2)",
+            "R_%s(8, 1, 3)", "R_%s(8, offset=2, mult=3)", "R_%s(8, mult=1)", "R_%s(8, 1, 1)", "R_%s(8, 2, 1)",
+            "R_%s(8, offset=3)", "R_%s(8, 3)", "R_%s(8, 3, 2)", "R_%s(nbits=8, mult=3)"]
+  if c.random() < 0.5:
+    cands8 = cands8 + candsR * 2
   cands16 = ["P_%s(Bits16, 1)", "P_%s(Bits16, 2)", "Q_%s(16, 2)", "Q_%s(16, 1)", "P_%s(Bits16, 1)"]
   for _ in range(c.randint(3, 7)):
     inst8.append(c.choice(cands8) % uid)
   for _ in range(c.randint(1, 3)):
     inst16.append(c.choice(cands16) % uid)
+  if c.random() < 0.3:
+    # a pair whose long parameter values agree on a long prefix and differ only at the very end
+    m = c.choice([20, 30, 45])
+    a, b = c.sample(range(3, 60), 2)
+    inst8.append("P_%s(Bits8, 1, lst=list(range(%d)) + [%d])" % (uid, m, a))
+    inst8.append("P_%s(Bits8, 1, lst=list(range(%d)) + [%d])" % (uid, m, b))
   L = []
   # parameter overrides through set_param next to instances that keep the constructor-call value: the
   # effective value (not the call's) must name the module
